@@ -86,13 +86,18 @@ def test_script(rng, f, ch, F, filehex, rot, nq):
         Q = [q for q in Q if not q[0].startswith("calc")]
     b = R.block_hint(f)
     reads = [(ty, u) for ty in R.TYS for u in "if"]
+    if F > 0:
+        # the first call on the handle is a query (nothing has been read yet: the descriptor is where the open left it)
+        L += Q[(rot + nq) % len(Q)][1] + ["r h0 %s f 2" % R.TYS[rot % 4], "seek h0 0 1"]
     for j in range(nq):
         name, lines = Q[(rot + j) % len(Q)]
         if j % 2 == 0 and F > 0:
             L.append("seek h0 %d 0" % rng.choice([0, 1, F // 2, max(F - 3, 0), b - 1 if 1 < b <= F else 0, rng.randrange(0, F + 1)]))
         ty, u = reads[(rot + j) % 8]
         k = rng.choice([1, 2, 3, 10])
-        if bw and (rot + j) % 9 == 8:
+        if j % 4 == 2:
+            pass                                     # the query right after the seek (also: at frame 0, at the last frame)
+        elif bw and (rot + j) % 9 == 8:
             L.append("rraw h0 %d" % (k * bw))
         else:
             L.append("r h0 %s %s %d" % (ty, u, k if u == "f" else k * ch))
